@@ -615,6 +615,49 @@ def gen_advanced_repeat(ctx):
                     f"(spec advindex ? ((arr ({n}) {ser.vals(xv)})) ({n}) {ser.vals(xv)})", structural=True)
 
 
+def gen_advanced_slices(ctx):
+    """advanced indexing with TWO OR MORE slices next to the index arrays, on rank-4/5 arrays: every placement of
+    2 index arrays among the axes (adjacent and separated) x slices (full / partial / strided / reversed) on ALL
+    the remaining axes, before / between / after the index arrays -- the slice axes of the result must be counted
+    whether or not a slice is the identity"""
+    shapes = [(3, 4, 2, 6), (2, 3, 4, 2, 3)]
+    sls = [slice(None), slice(1, None), slice(None, None, 2), slice(None, None, -1), slice(1, 6, 2)]
+    for s in shapes:
+        a = _data(s)
+        r = len(s)
+        for apos in itertools.combinations(range(r), 2):
+            rest = [d for d in range(r) if d not in apos]
+            combos = list(itertools.product(range(len(sls)), repeat=len(rest)))
+            if len(combos) > 30:
+                # all-identity, each single non-identity, and a deterministic spread of the others
+                keep = [c for c in combos if sum(1 for q in c if q) <= 1]
+                keep += [c for i, c in enumerate(combos) if i % 7 == (sum(apos) % 7)]
+                combos = sorted(set(keep))
+            for ish1, ish2 in (((2,), (2,)), ((2, 1), (3,))):
+                for combo in combos:
+                    idx_py, idx_pt, data = [], [], {"x": a}
+                    for d in range(r):
+                        if d in apos:
+                            ish = ish1 if d == apos[0] else ish2
+                            n = s[d]
+                            cnt = int(np.prod(ish))
+                            ia = np.array([(-n + (j * 3 + d + 1) % (2 * n)) for j in range(cnt)], dtype=np.int64).reshape(ish)
+                            data[f"i{d}"] = ia
+                            idx_py.append(ia)
+                            idx_pt.append(_ph(f"i{d}", ish, ia.dtype))
+                        else:
+                            sl = sls[combo[rest.index(d)]]
+                            idx_py.append(sl)
+                            idx_pt.append(sl)
+                    expected = a[tuple(idx_py)]
+                    node = _ph("x", s)[tuple(idx_pt)]
+                    mq, sq = _adv_wire(node, idx_py, s, a)
+                    yield LCase("advindex_slices", {"shape": s, "axes": apos,
+                                                    "index": repr([("arr", v.shape, v.tolist()) if isinstance(v, np.ndarray)
+                                                                   else v for v in idx_py])},
+                                node, data, expected, mq, sq, structural=True)
+
+
 _EINSUM_LETTERS = "ijkl"
 
 
@@ -832,7 +875,7 @@ def gen_csr(ctx):
 
 
 GENS = [gen_slice1d, gen_roll, gen_transpose, gen_reshape, gen_basic_nd, gen_stack_concat, gen_pad,
-        gen_advanced, gen_advanced_exh, gen_advanced_repeat, gen_einsum, gen_einsum_exh, gen_reduce, gen_csr]
+        gen_advanced, gen_advanced_exh, gen_advanced_repeat, gen_advanced_slices, gen_einsum, gen_einsum_exh, gen_reduce, gen_csr]
 
 
 # ---------------------------------------------------------------- the API layer: operators, where
@@ -1120,6 +1163,76 @@ def batch_binop(ctx, prop="C02"):
     ctx.note_batch("binop", n, dis, exhaustive=True, operators=[b[0] for b in _BINOPS],
                    note="operators x operand kinds (array/0-d array/Python scalar/NumPy scalar, both orders) x "
                         "broadcast shape pairs x dtype pairs; expression text, values vs Lean spec and NumPy")
+
+
+def batch_multiarg_elemwise(ctx, prop="C02"):
+    """multi-argument elementwise FUNCTIONS (arctan2: the only API going through `_apply_elem_wise_func` with two
+    array arguments) on operand shapes that need length-1 STRETCHING on some axis (not only rank padding), 0-d
+    operands and Python scalars: either an explicit refusal, or -- accepted -- the NumPy broadcast shape, every
+    access of the index lambda in bounds (Lean evaluator) and NumPy's values (Python interpreter of the real
+    index lambda)"""
+    import pytato as pt
+    from ..ilinterp import eval_index_lambda
+    pairs = [((2, 3), (2, 3)), ((1, 4), (3, 4)), ((3, 4), (1, 4)), ((3, 1), (3, 4)), ((2, 1), (1, 3)), ((10, 4), (1, 4)),
+             ((2, 3), (3,)), ((3,), (2, 3)), ((), (3,)), ((2, 3), ()), ((2, 1, 3), (4, 1)), ((1,), (5,)), ((0, 3), (1, 3)),
+             ((2, 3), (2, 4)), ((1, 1), (1, 1))]
+    fns = [("arctan2", pt.arctan2, np.arctan2)]
+    queries, owners = [], []
+    n = dis = 0
+    stats = {"refused": 0, "accepted": 0}
+    for label, fpt, fnp in fns:
+        for s1, s2 in pairs:
+            for kind2 in ("arr", "py"):
+                n += 1
+                a1 = (_data(s1) % 7 - 3) / 2.0
+                a2 = (_data(s2, 5) % 5 - 2) / 2.0 if kind2 == "arr" else 1.5
+                x1 = pt.make_placeholder("x1", s1, np.float64)
+                x2 = pt.make_placeholder("x2", s2, np.float64) if kind2 == "arr" else 1.5
+                params = {"fn": label, "shapes": (s1, s2 if kind2 == "arr" else "python scalar")}
+                try:
+                    expected = fnp(a1, a2)
+                except ValueError:
+                    expected = None
+                try:
+                    real = fpt(x1, x2)
+                except (NotImplementedError, ValueError, TypeError):
+                    stats["refused"] += 1
+                    continue
+                stats["accepted"] += 1
+                if expected is None or tuple(real.shape) != tuple(np.shape(expected)):
+                    dis += 1
+                    ctx.violation(f"api:elemwise:{label}:shape", f"{params}: accepted with shape {real.shape}; NumPy: "
+                                  f"{'refuses' if expected is None else np.shape(expected)}",
+                                  {"kind": "elemwise", "params": params, "expr": str(real.expr)})
+                    continue
+                data = {}
+                for nm, b in real.bindings.items():
+                    data[nm] = {"x1": a1, "x2": a2}[b.name]
+                expr_s = ser.sexpr(real.expr)
+                bs = " ".join(ser.binding(nm, arr) for nm, arr in sorted(data.items()))
+                queries.append(f"(evalil {ser.shape(real.shape)} {expr_s} ({bs}))")
+                owners.append((params, expr_s, real, data, expected))
+    ans = common.driver_query_parallel(queries)
+    for (params, expr_s, real, data, expected), a in zip(owners, ans):
+        parts = ser.split_top(a)
+        if parts[0] != "ok":
+            dis += 1
+            ctx.broken.append(f"lean-evalil:elemwise:{a[:60]}")
+            continue
+        if int(parts[4]) or int(parts[6]):
+            dis += 1
+            ctx.violation("oob:index-lambda:elemwise" if prop == "C11" else f"api:elemwise:{params['fn']}:out-of-bounds",
+                          f"{params}: {parts[6]} out-of-bounds accesses of {expr_s} (first affine one: {parts[5]})",
+                          {"kind": "elemwise", "params": params, "expr": expr_s})
+            continue
+        if prop == "C02":
+            got, it = eval_index_lambda(real, data)
+            if [o for o in it.oob if not o[2]] or not np.allclose(got, expected, equal_nan=True):
+                dis += 1
+                ctx.violation(f"api:elemwise:{params['fn']}:value", f"{params}: the index lambda {expr_s} evaluates "
+                              f"differently from NumPy", {"kind": "elemwise", "params": params, "expr": expr_s,
+                                                         "observed": np.asarray(got).tolist(), "expected": np.asarray(expected).tolist()})
+    ctx.note_batch("multi-argument-elementwise-stretching", n, dis, exhaustive=True, **stats)
 
 
 # ---------------------------------------------------------------- the API layer: constructors, CSR product
@@ -1543,6 +1656,7 @@ def run(ctx: common.Ctx):
     pad_symbolic(ctx, prop="C02")
     einsum_descriptors(ctx)
     batch_binop(ctx, prop="C02")
+    batch_multiarg_elemwise(ctx, prop="C02")
     batch_construct(ctx, prop="C02")
     # de-duplicate broken list (keep it short)
     ctx.broken = sorted(set(ctx.broken))[:50]
